@@ -1,6 +1,6 @@
 \* all boolean observation sequences up to length 12, all small settings, exact wake-ups
 CONSTANTS
-  NSet = {1, 2, 3}
+  NSet = {0, 1, 2, 3}
   MSSet = {0, 2, 4}
   CDSet = {0, 7}
   IVSet = {2}
